@@ -20,8 +20,6 @@ import (
 	"crypto/sha256"
 	"encoding/hex"
 	"fmt"
-	"os"
-	"runtime/pprof"
 	"sort"
 	"strconv"
 	"strings"
@@ -919,17 +917,13 @@ func runCollections(c *world, r *kit.Result, kt keyType, seqs [][]int, reps int)
 }
 
 func main() {
-	if p := os.Getenv("C18_PROF"); p != "" {
-		f, _ := os.Create(p)
-		pprof.StartCPUProfile(f)
-		defer pprof.StopCPUProfile()
-	}
 	kit.Main(&kit.Check{
 		ID: "C18", Level: "model_checking",
 		Rule: "Part V: every value of the tag-string menu (numbers, lat-lngs, feature IDs, ';' lists, YAML-special scalars, quotes, colons, leading '#', newline, empty) stored in every place of a fixed list (AddTag with plain/searchable key on each base and overlay feature type, overriding existing tags, tags of newly added features of each type, relation roles, collection keys/values). " +
-			"Part H: every sequence of <= D successful operations of the alphabet (20 feature additions + AddTag/RemoveTag on 10 targets x {#s,p} x core values, overrides, removals) applied to a fresh MutableOverlayWorld over the base; a sequence is cut at the first rejected operation; the third level uses the reduced (deep) alphabet. " +
+			"Part K: every key sequence of length <= L over an alphabet of 4 keys given in ascending order (strings a<b<c<d; ints -3<2<10<33, whose decimal texts sort differently; feature IDs of base features; mixed 1,2,a,b), shortest first then lexicographic — hence every order class (ascending, descending, unsorted only in the first pair / last pair / middle, several pairs, equal keys, and their combinations; classified by an independent comparator and counted per class in the counters) — as the keys of a collection (value at position j identifies j, alternating string/int), in each of 6 short histories (added, replacing the base collection, followed by plain / searchable AddTag and RemoveTag, replacing an earlier overlay collection). " +
+			"Part H: every sequence of <= D successful operations of the alphabet (feature additions: points, paths, areas, relations, collections incl. one collection per key type {string,int} x length 2..4 x order class {ascending, descending, unsorted only in first pair, only in last pair, only in the middle, non-decreasing with equal keys}; AddTag/RemoveTag on 10 targets x {#s,p} x core values, overrides, removals) applied to a fresh MutableOverlayWorld over the base; a sequence is cut at the first rejected operation; the third level uses the reduced (deep) alphabet. " +
 			"Every reached state is checked unless a state with the same private state (overlaid features, modified tags, reference lists, search index posting lists) was already checked in the case. Non-trivial = the overlay holds at least one modification; distinct = distinct private states. " +
-			"Oracle: export with ExportChangesAsYAML, apply with IngestChangesFromYAML to a fresh MutableOverlayWorld over the same base, canonical dumps equal on every section (lookups, tag keys and value strings, value kinds, references, geometry at E7, members, items, locations, referrers, traversal, tag searches, enumeration). The export is repeated (map iteration order inside the exporter is not controllable) and each distinct file is imported.",
+			"Oracle: export with ExportChangesAsYAML, apply with IngestChangesFromYAML to a fresh MutableOverlayWorld over the same base, canonical dumps equal on every section: worldkit's (lookups by ID, tag keys and value strings, value kinds, Get of every present key, References, geometry at E7, members, items, locations, referrers, relations/collections/areas by feature, traversal, tag searches, enumeration) and this check's behavioural ones — Get for a menu of present and absent keys, Reference(i), and for every collection obtained by every route (FindFeatureByID, FindCollectionsByFeature of every ID, FindFeatures(all), EachFeature): items with key/value kinds, Count, FindValue(k) and FindValues(k, prefix) for every key k the edited world's collection holds plus a fixed menu of absent keys and keys of other kinds; the full rendering of every feature returned by FindFeatures(all) and EachFeature. The probe keys are taken from the EDITED world and put to both worlds. The export is repeated (map iteration order inside the exporter is not controllable) and each distinct file is imported.",
 		Assumptions: []string{
 			"geometry is compared at E7 precision; polygon loops up to rotation",
 			"the order of documents in the exported file depends on Go map iteration order inside the repository code; it is sampled by repeating the export, not enumerated",
